@@ -43,6 +43,10 @@ elif prog == "reduction":
 elif prog == "rechunked":
     # the rechunk is not fused, so its input is a materialised intermediate read back by name
     y = xp.negative(xp.add(x, 1.0).rechunk((8,)))
+if len(sys.argv) > 5 and sys.argv[5] == "1":
+    # the sender computes the array itself before shipping it (default executor, tasks run in this process) and then exits:
+    # whatever that run left on the array's plan objects travels inside the pickle, the sender's storage does not survive
+    y.compute()
 open(out, "wb").write(cloudpickle.dumps(y))
 '''
 
@@ -125,10 +129,10 @@ def run_py(src, args, timeout=900):
     return r
 
 
-def produce(work, prog, base_value):
-    out = os.path.join(work, f"{prog}-{base_value}.pkl")
+def produce(work, prog, base_value, computed=False):
+    out = os.path.join(work, f"{prog}-{base_value}{'-computed' if computed else ''}.pkl")
     if not os.path.exists(out):
-        r = run_py(PRODUCER_SRC, [work, out, prog, base_value])
+        r = run_py(PRODUCER_SRC, [work, out, prog, base_value, "1" if computed else "0"])
         if r.returncode != 0:
             raise HarnessError(f"producer failed: {r.stderr[-400:]}")
     return out
@@ -141,15 +145,18 @@ def _produce_item(item):
 def scenario(item):
     prog, k, use, opt, seed, work = item[:6]
     pre = bool(item[6]) if len(item) > 6 else False
+    sent_computed = bool(item[7]) if len(item) > 7 else False
     own = work is None
     if own:
         work = tempfile.mkdtemp(prefix="vkit-c20-")
     try:
         b1, b2 = 1000.0 + seed, 5000.0 + seed
         case = dict(producer=prog, k=k, use=use, optimize=opt, seed=seed, receiver_precomputed=pre)
+        if sent_computed:
+            case["sender_computed"] = True
         if use == "d-original" or k == "same-process":
             return case, same_process(prog, use, opt, work, b1)
-        p1 = produce(work, prog, b1)
+        p1 = produce(work, prog, b1, sent_computed)
         p2 = p1
         v2 = None
         if use == "d1-d2-two":
@@ -213,7 +220,7 @@ def same_process(prog, use, opt, work, base):
 
 
 def replay_case(case):
-    _, probs = scenario((case["producer"], case["k"], case["use"], case["optimize"], case.get("seed", 0), None, case.get("receiver_precomputed", False)))
+    _, probs = scenario((case["producer"], case["k"], case["use"], case["optimize"], case.get("seed", 0), None, case.get("receiver_precomputed", False), case.get("sender_computed", False)))
     return [Problem(sig, case, t) for sig, t in probs]
 
 
@@ -222,7 +229,7 @@ def run(ctx):
     ks = (0, 1, 3) if tier == "quick" else (0, 1, 2, 3, 4, 6)
     work = tempfile.mkdtemp(prefix="vkit-c20-")
     # every producer is built once, each in its own fresh interpreter
-    ctx.pmap(_produce_item, [(work, prog, b + ctx.seed) for prog in PRODUCERS for b in (1000.0, 5000.0)])
+    ctx.pmap(_produce_item, [(work, prog, b + ctx.seed) for prog in PRODUCERS for b in (1000.0, 5000.0)] + [(work, prog, 1000.0 + ctx.seed, True) for prog in PRODUCERS])
     opts = (True,) if tier == "quick" else (True, False)
     items = []
     for prog in PRODUCERS:
@@ -235,6 +242,9 @@ def run(ctx):
                     items.append((prog, k, use, opt, ctx.seed, work, False))
                     if use in ("alone", "local-d") and (tier == "thorough" or k in (0, 3)):
                         items.append((prog, k, use, opt, ctx.seed, work, True))
+                    if use in ("alone", "d-local") and (tier == "thorough" or k == 3):
+                        # the sender computed the array before shipping it and has exited
+                        items.append((prog, k, use, opt, ctx.seed, work, False, True))
     n = 0
     outcomes = Counter()
     try:
